@@ -103,6 +103,7 @@ def execute(case, ctx):
         ctx.probe('audit_armed_evals')
         ctx.event(step, used, rout.kind, canon.digest(rout.brief()))
         ctx.op_kind(used[0])
+        ctx.state(canon.cdigest(names, monitors.M.fn_names))
         what = 'step %d %r' % (step, src[:220])
         if rout.kind == 'base':
             ctx.report('non_exception_escaped', '%s: %r' % (what, rout.exc), {'kind': 'non_exception_escaped'})
